@@ -311,7 +311,7 @@ def add_symbol_features(draw, m, versions="maybe"):
             i["vis"] = "protected"
         elif c in (2, 3):
             i["weak"] = True
-        if draw(st.integers(0, 5)) == 0 and i.get("vis", "default") != "hidden" and not i.get("weak"):
+        if draw(st.integers(0, 5)) == 0 and i.get("vis", "default") != "hidden" and (not i.get("weak") or draw(st.booleans())):
             n = draw(st.integers(1, 2))
             i["aliases"] = [{"name": "%s_al%d" % (i["name"], j), "weak": k == "fn" and draw(st.booleans())}
                             for j in range(n)]
